@@ -225,7 +225,7 @@ def obligations(tier, seed):
     prim = [("list", 1, [0, 2]), ("list", 4, [1]), ("docmarks", 0, [3, 4]), ("docmarks", 2, [3, 4]), ("mx1", 1, [3, 4])] if tier == "quick" else \
         [("list", i, [0, 2]) for i in (1, 2, 4, 7, 11)] + [("list", 4, [1]), ("list", 8, [1]), ("strict", 0, [0, 1]), ("table", 0, [0]),
                                                     ("docmarks", 0, [0, 3, 4]), ("docmarks", 1, [3, 4]), ("mx1", 1, [3, 4]), ("mx5", 2, [3, 4])]
-    for (sn, i) in ([("list", 1)] if tier == "quick" else [("list", 1), ("list", 4), ("strict", 0), ("iso", 1)]):
+    for (sn, i) in ([("list", 0)] if tier == "quick" else [("list", 0), ("list", 1), ("list", 14), ("strict", 0), ("iso", 1)]):
         C_ = common.load({"schema": sn, "doc": i})
         spans = [(k, C_.pm.match[k] + 1) for k, t in enumerate(C_.tok) if t[0] == "open"][: (3 if tier == "quick" else 6)]
         for (o, c) in spans + [(0, C_.size)]:
